@@ -26,6 +26,20 @@ def replay(prop, path):
     import pengine as P
     import refsem as R
     b = P.Bridge()
+    if r.get("engine") == "M" and r.get("function") == "bloom":
+        sh = r["shape"]
+        j = {"job": "bloom", "ctor": r["ctor"], "search": 3000}
+        if r["ctor"] == "with_params":
+            j.update({"m": sh["m"], "k": sh["k"]})
+        else:
+            j.update({"n": r["native_result"].get("n", 100), "p": r["native_result"].get("p", 0.01)})
+        rr = b.job(j)
+        b.close()
+        print("native:", rr)
+        if rr.get("ok") and rr.get("fail_key") is not None:
+            print(f"VIOLATION property={prop} replay={path}")
+            return 1
+        return 0
     if r.get("engine") == "M":
         i = r["inputs"]
         j = {"job": "paginate", "len": i["len"]}
